@@ -133,6 +133,9 @@ pub fn check_value(v: &RVal, rec: &mut Rec) -> Verdict {
         // asking for display text: `to_string()` panics when Display returns an error, which is a panic to the caller
         let _ = hv.to_string().len();
         let _ = format!("{hv}").len();
+        // the formatter's own knobs (precision, width, fill / alignment, alternate) are part of asking for display text
+        let n = (key_of(&format!("{v:?}")) % 40) as usize;
+        let _ = format!("{hv:.3}|{hv:.0}|{hv:.n$}|{hv:>12}|{hv:^5.2}|{hv:*<w$.p$}|{hv:#}", w = n + 1, p = n / 2).len();
     }));
     // typed ToZinc / Serialize
     match &hv {
@@ -306,8 +309,96 @@ fn foreign_doc() -> BoxedStrategy<ForeignDoc> {
     }))
 }
 
+// ---------------------------------------------------------------------------------------------
+// the C entry points of the two encoders (a panic inside `extern "C"` aborts the process: child processes)
+
+/// `hv probe c10-capi <seed> <shard> <count>` or `hv probe c10-capi one <file>`
+pub fn probe_capi_encoders(args: &[String]) -> i32 {
+    use std::io::Write;
+    let encode = |v: &RVal| {
+        let hv = Box::new(build(v));
+        let p: *const Value = &*hv;
+        unsafe {
+            for s in [libhaystack::c_api::zinc::haystack_value_to_zinc_string(p), libhaystack::c_api::json::haystack_value_to_json_string(p)] {
+                if s.is_null() {
+                    let m = libhaystack::c_api::err::last_error_message();
+                    if !m.is_null() {
+                        libhaystack::c_api::str::haystack_string_destroy(m as *mut std::os::raw::c_char);
+                    }
+                } else {
+                    libhaystack::c_api::str::haystack_string_destroy(s as *mut std::os::raw::c_char);
+                }
+            }
+        }
+    };
+    if args.first().map(|s| s.as_str()) == Some("one") {
+        let Some(Ok(text)) = args.get(1).map(std::fs::read_to_string) else { return 2 };
+        let Ok(j) = serde_json::from_str::<J>(&text) else { return 2 };
+        let Ok(v) = RVal::from_json(&j) else { return 2 };
+        encode(&v);
+        return 0;
+    }
+    let seed: u64 = args.first().and_then(|s| s.parse().ok()).unwrap_or(1);
+    let shard: usize = args.get(1).and_then(|s| s.parse().ok()).unwrap_or(0);
+    let count: u32 = args.get(2).and_then(|s| s.parse().ok()).unwrap_or(100);
+    use proptest::test_runner::{Config, RngAlgorithm, TestRng, TestRunner};
+    let rng = TestRng::from_seed(RngAlgorithm::ChaCha, &crate::runner::seed_bytes(seed, "C10", "capi-encoders", shard));
+    let mut runner = TestRunner::new_with_rng(Config { cases: count, failure_persistence: None, ..Config::default() }, rng);
+    // values as the decoders return them: NUL and other controls in every string position
+    let nul = prop::sample::select(vec!["\0", "a\0b", "\0x", "é\0"]).prop_map(String::from);
+    let strat = prop_oneof![
+        6 => top_value(GenCfg::any(2)),
+        1 => nul.clone().prop_map(|s| RVal::Ref(s, None)),
+        1 => nul.clone().prop_map(RVal::Symbol),
+        1 => nul.clone().prop_map(|s| RVal::XStr(s, "v".into())),
+        1 => nul.clone().prop_map(|s| RVal::Dict([(s, RVal::Marker)].into_iter().collect())),
+        1 => nul.clone().prop_map(|s| RVal::List(vec![RVal::Str(s.clone()), RVal::Uri(s.clone()), RVal::Ref("a".into(), Some(s))])),
+        1 => nul.prop_map(|s| RVal::Grid(RGrid { meta: Some([(s.clone(), RVal::Marker)].into_iter().collect()), cols: vec![RCol { name: s, meta: None }], rows: vec![] })),
+    ];
+    let out = std::io::stdout();
+    let _ = runner.run(&strat, |v| {
+        {
+            let mut o = out.lock();
+            let _ = writeln!(o, "CASE {}", v.to_json());
+            let _ = o.flush();
+        }
+        encode(&v);
+        let mut o = out.lock();
+        let _ = writeln!(o, "DONE");
+        let _ = o.flush();
+        Ok(())
+    });
+    0
+}
+
+fn capi_encoders(ctx: &mut Ctx) {
+    use crate::isolate::{run_probes, ProbeStatus};
+    let per = ctx.tier.pick(1_500, 30_000);
+    let jobs: Vec<Vec<String>> = (0..16).map(|sh| vec!["c10-capi".to_string(), ctx.seed.to_string(), sh.to_string(), per.to_string()]).collect();
+    let results = run_probes(jobs, std::time::Duration::from_secs(600), 16);
+    for r in results {
+        let done = r.stdout.matches("\nDONE").count() as u64 + if r.stdout.starts_with("DONE") { 1 } else { 0 };
+        ctx.rec.evals += done;
+        ctx.rec.class_n("capi-encoders:values", done);
+        match r.status {
+            ProbeStatus::Exit(0) => {}
+            other => {
+                // the value in flight is the last CASE line without a DONE after it
+                let last = r.stdout.rsplit("CASE ").next().unwrap_or("").lines().next().unwrap_or("").to_string();
+                let case: J = serde_json::from_str(&last).unwrap_or(J::Null);
+                ctx.rec.nontrivial(key_of(&last));
+                ctx.report(
+                    "capi-encode",
+                    Verdict::fail("C10:capi-encoders:abort", format!("haystack_value_to_zinc_string / to_json_string ended the process ({other:?}) on {}: {}", trunc(&last, 200), r.stderr_tail.lines().last().unwrap_or(""))),
+                    case,
+                );
+            }
+        }
+    }
+}
+
 pub fn run(ctx: &mut Ctx) {
-    ctx.rule("generated: any constructible Value (every String field any Unicode string incl. empty, names need not be identifiers, rows need not match columns, NaN/INF with units), nesting to depth 64 by direct spines, plus the image of each decoder offered to the other encoder and foreign Hayson documents; oracle: every encoder/Display/dis call returns (Ok or Err) without panicking - also into writers that fail after a generated number of bytes, after which the same thread must still produce the same text; non-trivial: value is ill-formed in at least one field or came from a decoder; distinct by Debug hash");
+    ctx.rule("generated: any constructible Value (every String field any Unicode string incl. empty, names need not be identifiers, rows need not match columns, NaN/INF with units), nesting to depth 64 by direct spines, plus the image of each decoder offered to the other encoder and foreign Hayson documents; the two encoders' C entry points over generated values (NUL in every string position included) in child processes; oracle: every encoder/Display (also with precision / width / alignment flags)/dis call returns (Ok or Err) without panicking - also into writers that fail after a generated number of bytes, after which the same thread must still produce the same text; non-trivial: value is ill-formed in at least one field or came from a decoder; distinct by Debug hash");
     ctx.assume("instants within 14 h of chrono's representable limits are a separately labelled class (not generated in the main strategy)");
     let total = ctx.tier.pick(160_000, 3_200_000);
     let depth = ctx.tier.pick(3, 4) as u32;
@@ -321,6 +412,7 @@ pub fn run(ctx: &mut Ctx) {
     );
     let total_foreign = ctx.tier.pick(32_000, 640_000);
     ctx.run_sub::<ForeignDoc>("foreign-hayson", total_foreign, &foreign_doc, &check_foreign);
+    capi_encoders(ctx);
 }
 
 pub fn replay(kind: &str, case: &J, rec: &mut Rec) -> Verdict {
@@ -329,6 +421,19 @@ pub fn replay(kind: &str, case: &J, rec: &mut Rec) -> Verdict {
             Ok(v) => check_value(&v, rec),
             Err(e) => Verdict::fail("infra:bad-replay", e),
         },
+        "capi-encode" => {
+            // one value through the C entry points, in a child process
+            let dir = crate::runner::verif_root().join("work");
+            let _ = std::fs::create_dir_all(&dir);
+            let path = dir.join(format!("c10-capi-{}.json", std::process::id()));
+            let _ = std::fs::write(&path, case.to_string());
+            let r = crate::isolate::run_probe(&["c10-capi".to_string(), "one".to_string(), path.display().to_string()], None, std::time::Duration::from_secs(60), &[]);
+            let _ = std::fs::remove_file(&path);
+            match r.status {
+                crate::isolate::ProbeStatus::Exit(0) => Verdict::Pass,
+                other => Verdict::fail("C10:capi-encoders:abort", format!("the C encoder entry points ended the process: {other:?} {}", r.stderr_tail.lines().last().unwrap_or(""))),
+            }
+        }
         "foreign-hayson" => match ForeignDoc::from_json(case) {
             Ok(v) => check_foreign(&v, rec),
             Err(e) => Verdict::fail("infra:bad-replay", e),
